@@ -156,14 +156,22 @@ def run(ctx):
     for name, v in views.items():
         sel = [s for s in v.sites if s.stmt.kind == "SELECT" and s.stmt.table == "session"]
         for call in [c for c in walk_no_nested(v.fn) if isinstance(c, ast.Call) and unparse(c.func) == "FIXSession"]:
-            roles = []
-            for a in call.args:
+            def role_of(a):
                 col = _row_col(a, sel)
                 if col:
-                    roles.append(COL_ROLE.get(col, col))
-                else:
-                    r = expr_roles(a, fold)
-                    roles.append("target" if "target" in r else "sender" if "sender" in r else "session_key" if isinstance(a, ast.Name) and "id" in a.id else "?")
+                    return COL_ROLE.get(col, col)
+                r = expr_roles(a, fold)
+                return "target" if "target" in r else "sender" if "sender" in r else "session_key" if isinstance(a, ast.Name) and "id" in a.id else "?"
+            fparams_ = {a_.arg for a_ in v.fn.args.args}
+            roles = []
+            for a in call.args:
+                ro = role_of(a)
+                if ro == "?" and isinstance(a, ast.Name) and a.id not in fparams_:
+                    # a local: the role every one of its definitions has
+                    dd = [x.value for x in walk_no_nested(v.fn) if isinstance(x, ast.Assign) and len(x.targets) == 1 and unparse(x.targets[0]) == a.id]
+                    rs = {role_of(d) for d in dd}
+                    ro = rs.pop() if len(rs) == 1 else "?"
+                roles.append(ro)
             want = [{"key": "session_key", "target_comp_id": "target", "sender_comp_id": "sender"}.get(p, p) for p in params[:len(roles)]]
             ctx.instance("C13.placeholder-binding", f"Journaler.{name}[FIXSession({unparse(call)[11:40]})]", roles == want,
                          f"FIXSession is constructed with {roles} where its parameters are {want}: mirror-image sessions get confused", loc(call))
@@ -176,39 +184,47 @@ def run(ctx):
                     and n.targets[0].attr in ("next_num_in", "next_num_out"):
                 side = n.targets[0].attr
                 col_want = "inboundSeqNo" if side == "next_num_in" else "outboundSeqNo"
-                val = n.value
-                cons = f"Journaler.{name}[{side} := {short(val, 30)}]"
-                if isinstance(val, ast.Constant):
-                    ok = val.value == 1 and ses_t.defaults.get(col_want) == "0"
-                    ctx.instance("C13.counter-encoding", cons, ok,
-                                 f"a new session starts at {val.value!r} but the column default is {ses_t.defaults.get(col_want)}: create and load disagree", loc(n))
-                elif isinstance(val, ast.Name):
-                    # set_seq_num: the live counter takes the parameter; the durable twin must be param - 1
-                    upd = [s for s in v.sites if s.stmt.kind == "UPDATE" and s.stmt.table == "session"]
-                    ok = False
-                    for s in upd:
-                        for ph, arg in zip(s.stmt.placeholders, s.args or []):
-                            if ph[0] == "set" and ph[1] == col_want:
-                                # the parameter, or the attribute it was just stored into (the same number on every path:
-                                # when the parameter is None the attribute keeps the live value, which is what is stored then)
-                                ok = unparse(arg) == f"{val.id} - 1" or (unparse(arg) == f"{unparse(n.targets[0])} - 1" and n.lineno < s.call.lineno)
-                    ctx.instance("C13.counter-encoding", cons, ok,
-                                 f"{name}() sets {side} from `{val.id}` but does not store `{val.id} - 1` into {col_want}", loc(n))
-                else:
-                    col = None
-                    plus1 = False
-                    if isinstance(val, ast.BinOp) and isinstance(val.op, ast.Add) and isinstance(val.right, ast.Constant) and val.right.value == 1:
-                        col = _row_col(val.left, sel)
-                        plus1 = True
-                    elif isinstance(val, ast.BinOp) and isinstance(val.op, ast.Add) and isinstance(val.left, ast.Constant) and val.left.value == 1:
-                        col = _row_col(val.right, sel)
-                        plus1 = True
+                fparams = {a_.arg for a_ in v.fn.args.args}
+                vals_ = [n.value]
+                if isinstance(n.value, ast.Name) and n.value.id not in fparams:
+                    # a local: every value it can hold at this point (e.g. the elements of a (key, target, sender, out, in) tuple
+                    # built differently for a new and for a loaded session)
+                    dd = [x.value for x in walk_no_nested(v.fn) if isinstance(x, ast.Assign) and len(x.targets) == 1 and unparse(x.targets[0]) == n.value.id]
+                    if dd:
+                        vals_ = dd
+                for val in vals_:
+                    cons = f"Journaler.{name}[{side} := {short(val, 30)}]"
+                    if isinstance(val, ast.Constant):
+                        ok = val.value == 1 and ses_t.defaults.get(col_want) == "0"
+                        ctx.instance("C13.counter-encoding", cons, ok,
+                                     f"a new session starts at {val.value!r} but the column default is {ses_t.defaults.get(col_want)}: create and load disagree", loc(n))
+                    elif isinstance(val, ast.Name):
+                        # set_seq_num: the live counter takes the parameter; the durable twin must be param - 1
+                        upd = [s for s in v.sites if s.stmt.kind == "UPDATE" and s.stmt.table == "session"]
+                        ok = False
+                        for s in upd:
+                            for ph, arg in zip(s.stmt.placeholders, s.args or []):
+                                if ph[0] == "set" and ph[1] == col_want:
+                                    # the parameter, or the attribute it was just stored into (the same number on every path:
+                                    # when the parameter is None the attribute keeps the live value, which is what is stored then)
+                                    ok = unparse(arg) == f"{val.id} - 1" or (unparse(arg) == f"{unparse(n.targets[0])} - 1" and n.lineno < s.call.lineno)
+                        ctx.instance("C13.counter-encoding", cons, ok,
+                                     f"{name}() sets {side} from `{val.id}` but does not store `{val.id} - 1` into {col_want}", loc(n))
                     else:
-                        col = _row_col(val, sel)
-                    ok = plus1 and col == col_want
-                    ctx.instance("C13.counter-encoding", cons, ok,
-                                 f"loader {name}() computes {side} as `{short(val, 40)}` (column {col}); the stored value is the last number, "
-                                 f"so every loader must yield {col_want} + 1", loc(n))
+                        col = None
+                        plus1 = False
+                        if isinstance(val, ast.BinOp) and isinstance(val.op, ast.Add) and isinstance(val.right, ast.Constant) and val.right.value == 1:
+                            col = _row_col(val.left, sel)
+                            plus1 = True
+                        elif isinstance(val, ast.BinOp) and isinstance(val.op, ast.Add) and isinstance(val.left, ast.Constant) and val.left.value == 1:
+                            col = _row_col(val.right, sel)
+                            plus1 = True
+                        else:
+                            col = _row_col(val, sel)
+                        ok = plus1 and col == col_want
+                        ctx.instance("C13.counter-encoding", cons, ok,
+                                     f"loader {name}() computes {side} as `{short(val, 40)}` (column {col}); the stored value is the last number, "
+                                     f"so every loader must yield {col_want} + 1", loc(n))
     ctx.floor("C13.counter-encoding", 8)
     # writers in persist_msg: the counter takes the row's own number
     pv = views.get("persist_msg")
